@@ -452,8 +452,8 @@ theorem idxOf_first : ∀ (l : List Nat) (c k : Nat) (hk : k < l.length), l[k] =
     have ha : a ≠ c := by
       intro e; exact hb 0 (by omega) (by simp [e])
     have hb' : (a == c) = false := by simp [ha]
-    rw [List.idxOf_cons, hb']
-    simp only [Bool.false_eq_true, ↓reduceIte, Nat.add_right_cancel_iff]
+    rw [List.idxOf_cons, hb', cond_false]
+    congr 1
     apply idxOf_first l c k (by simpa using hk) (by simpa using hkc)
     intro j hj
     have := hb (j + 1) (by omega)
@@ -555,7 +555,8 @@ theorem walk_eq_flat (chars : ValidChars) (outs : List NodeOut) (wf : WF chars o
     by_cases hleaf : o.leaf = true
     · simp [hleaf]
     · have hleaf' : o.leaf = false := by simpa using hleaf
-      simp only [hleaf', Bool.false_eq_true, ↓reduceIte, Bool.false_or]
+      simp only [hleaf', Bool.false_eq_true, ↓reduceIte, Bool.false_or,
+        show (Trie.ofOuts chars outs).chars = chars from rfl]
       by_cases hv : chars.isValid c = true
       · simp only [hv, Bool.not_true, Bool.false_eq_true, ↓reduceIte]
         have hfuel : o.labels.length - 0 + 1 ≤ (Trie.ofOuts chars outs).labelBitmap.size * 64 + 1 := by
@@ -567,7 +568,7 @@ theorem walk_eq_flat (chars : ValidChars) (outs : List NodeOut) (wf : WF chars o
           rw [this]; omega
         have hscan := scan_spec chars outs wf h0 h256 n o ho c hv (o.labels.length - 0) 0 _ rfl (Nat.zero_le _)
           (by intro j hj; omega) hfuel
-        rw [Nat.add_zero] at hscan
+        simp only [Nat.add_zero] at hscan
         rw [hscan]
         simp only [Option.bind_some]
         by_cases hm : c ∈ o.labels
